@@ -9,6 +9,7 @@ import (
 	"os"
 	"os/exec"
 	"reflect"
+	"runtime/debug"
 	"sort"
 	"strings"
 	"sync"
@@ -488,6 +489,13 @@ func C18Race(rounds int) {
 		for i, op := range ops {
 			solo[i] = op.run()
 		}
+		// history prefix: the error paths (every operation once on the zero value of the type) run before the
+		// goroutines start; the collector is held off so that what they left in pools is still there
+		zeroOps := c18Ops(c18Value{name: v.name, v: reflect.New(reflect.TypeOf(v.v).Elem()).Interface()})
+		gcWas := debug.SetGCPercent(-1)
+		for _, op := range zeroOps {
+			core.Guard(func() { op.run() })
+		}
 		var wg sync.WaitGroup
 		for g := 0; g < 8; g++ {
 			wg.Add(1)
@@ -509,6 +517,7 @@ func C18Race(rounds int) {
 			}(g)
 		}
 		wg.Wait()
+		debug.SetGCPercent(gcWas)
 	}
 	fmt.Printf("c18race calls=%d\n", calls)
 }
